@@ -283,7 +283,7 @@ def fragment_tail(sl, anchor_re, name=None):
 
 def fragment_between(sl, start_re, end_re, name=None):
     """Head/middle fragment: the text from the unique match of start_re up to (not including) the unique match of
-    end_re, both at brace depth 0 of the function body."""
+    end_re; both anchors must lie in the same block (the fragment is brace-balanced) and it must not return."""
     header, body = body_of(sl.text)
     ms, me = list(re.finditer(start_re, body)), list(re.finditer(end_re, body))
     if len(ms) != 1 or len(me) != 1 or me[0].start() <= ms[0].start():
@@ -297,8 +297,8 @@ def fragment_between(sl, start_re, end_re, name=None):
     _scan_code(body[:ms[0].start()], 0, f)
     d0 = d[0]
     _scan_code(t, 0, f)
-    if d0 != 0 or d[0] != 0:
-        raise Undecided("fragment_between(%s): anchors are not at the top level of the function body" % sl.name)
+    if d[0] != d0:
+        raise Undecided("fragment_between(%s): the two anchors are not in the same block (fragment is not brace-balanced)" % sl.name)
     if re.search(r'\b(return|goto)\b', strip_comments(t)):
         raise Undecided("fragment_between(%s): the fragment contains return/goto" % sl.name)
     return Slice(name or sl.name + ":middle", sl.rel, t, sl.line, kind="middle-fragment")
